@@ -124,3 +124,9 @@ def predicates(c, ri, rm):
     if any(x < -tol for x in rb) or ru < -tol or abs(sum(rb) + ru - 1) > slack:
         out.append("discounted simplex is not well-formed")
     return out
+
+
+def gen_q(rng, tier):
+    """exact-rational cases: see qgen.py"""
+    from . import qgen
+    return qgen.discount(rng, tier)
